@@ -246,6 +246,23 @@ PROPS = {
           must_observe=['machines_killed', 'recoveries', 'runs_correct', 'replies_delivered_after_their_machine_was_seen_stopped', 'read_replies_cut_mid_body']),
 }
 
+
+# additions of the sixth round of seeded changes (appended to the rule texts above)
+_ROUND6 = {
+ 'C03': 'an executor that cannot record a task\'s outcome because an evaluation keeps the task\'s lock is a stall too: proved by a lock-free watcher from two goroutine profiles in which every goroutine of the evaluation and of the adversary is parked (one of them inside exec.(*Task) on a mutex), also after every evaluation has returned.',
+ 'C04': 'a same-shaped-branches family (16 programs: 2-4 branches of one operator sequence - const, readerfunc>map, const>reduce, readerfunc>map>reduce - with different data, joined by one or two Cogroups) on local, a testsystem, and a testsystem with machine combiners.',
+ 'C05': 'every second child process first meets the cross-process key sets through single-shard aggregations (hashed by the combiner, not by the partitioner), so that the processes compared differ in their history.',
+ 'C08': 'a combine key is carried by the tasks of one stage only and is the key named by the consumers of that stage.',
+ 'C11': 'every case with more than one column also runs with the frame built by frame.Values over columns of unequal capacity (column 0 with room for 3 more rows, all of it in storage the monitor owns).',
+ 'C12': 'operation discard-cancelled (a Discard whose context has already ended, then reuse); every kind of first use of a result (each redistribution, to one and to several shards, and a pipelined one) followed by pipelined and redistributing later uses of the same result; a Func over a result that has not returned after 120 s with no RPC other than keepalives for 80 s (or with every goroutine inside bigslice parked) is a hang, a watchdog alone stays inconclusive.',
+ 'C13': 'a run that completed although a file operation had failed (the failed attempt was retried) must have left a file for every shard, as any completed run.',
+ 'C14': 'every machine the script killed must leave the manager\'s state altogether, whatever queue it was in; fixed histories stop a machine that is idle, loaded, and on probation with and without further tasks.',
+ 'C15': 'the scripted remote stream is withdrawn after 2 x failures + 60 re-opens, so that a reader that never gives up comes back and is reported (retry-budget-not-enforced).',
+ 'C16': '(f) registry: the list this process reports for its own registry (FuncLocations) must name, per Func, the source line of its bigslice.Func call (read from the source file), pairwise distinct, and every transposition of it must be told apart by FuncLocationsDiff.',
+}
+for _k, _v in _ROUND6.items():
+    PROPS[_k]['rule'] += ' Sixth round: ' + _v
+
 META = {
  'C11': dict(
     text='Exploration: the real frame package is driven through every single operation on every view of small frames and through '
